@@ -246,13 +246,15 @@ class Evaluator:
                 return v
             if e.id in ('None', 'True', 'False'):
                 return {'None': None, 'True': True, 'False': False}[e.id]
-            if e.id in ('list', 'dict', 'set', 'int', 'str', 'tuple', 'float', 'object', 'bool'):
-                return {'list': list, 'dict': dict, 'set': set, 'int': int, 'str': str, 'tuple': tuple, 'float': float, 'object': object, 'bool': bool}[e.id]
+            if e.id in ('list', 'dict', 'set', 'int', 'str', 'tuple', 'float', 'object', 'bool', 'bytes', 'frozenset', 'type'):
+                return {'list': list, 'dict': dict, 'set': set, 'int': int, 'str': str, 'tuple': tuple, 'float': float, 'object': object, 'bool': bool, 'bytes': bytes, 'frozenset': frozenset, 'type': type}[e.id]
             raise Unfoldable(f'name {e.id}')
         if isinstance(e, ast.Attribute):
             d = dotted(e)
             if d in STD_CONSTS:
                 return STD_CONSTS[d]
+            if d and d.startswith('pysam.') and d not in env and d.split('.')[0] not in env:
+                return ExternalRef(d)          # a class of the alignment library, only ever compared with (type(x) == pysam...)
             if isinstance(e.value, ast.Name) and isinstance(env.get(e.value.id), Instance):
                 inst = env[e.value.id]
                 if e.attr in inst.attrs:
@@ -617,6 +619,8 @@ class Evaluator:
                     return args[1]
                 raise Raised('StopIteration', 'next')
             raise Unfoldable('next on a shared iterator')
+        if d == 'type' and len(args) == 1 and not kwargs:
+            return args[0].cls if isinstance(args[0], Instance) else type(args[0])
         if d == 'isinstance' and len(args) == 2:
             kinds = args[1] if isinstance(args[1], tuple) else (args[1],)
             for k_ in kinds:
